@@ -142,3 +142,85 @@ def normContent (c : Content) : Content :=
 def normGroup (g : Group) : Group := ⟨g.branch, g.contents.map normContent⟩
 
 end Spec.Op
+
+/-! ### the canonical writer of the schema
+
+Written from the Tezos tables only (`pkhPrefixes`, `originatedPrefixes`, `publicKeys`, `reservedEntrypoints`, `tezosOps`);
+nothing regenerated from the Python source is used.  The primitive writers (zarith N, 4-byte length prefix, Micheline) are
+the shared `Core` / `Impl.Forge` definitions whose own canonicity is C05's subject. -/
+namespace Spec.Op
+open Core OpLayout
+open Generated.C06 (Cond)
+
+def writePkh (p : String) (h : Bytes) : Option Bytes :=
+  (pkhPrefixes.find? (·.2 == p)).map fun r => r.1 :: h
+
+def writeAddr (p : String) (h : Bytes) : Option Bytes :=
+  match pkhPrefixes.find? (·.2 == p) with
+  | some r => some (0 :: r.1 :: h)
+  | none => (originatedPrefixes.find? (·.2 == p)).map fun r => r.1 :: (h ++ [0])
+
+def writePubkey (p : String) (k : Bytes) : Option Bytes :=
+  (publicKeys.find? (·.2.1 == p)).map fun r => r.1 :: k
+
+/-- the first matching case of the union: a reserved name is written as its tag, never as a named entrypoint -/
+def writeEntrypoint (n : Bytes) : Option Bytes :=
+  match reservedEntrypoints.find? (·.2.1 == n) with
+  | some r => some [r.2.2]
+  | none => if n.length < 256 then some (255 :: n.length :: n) else none
+
+def writeC : SCodec → Val → Option Bytes
+  | .nat, .nat n => some (forgeNat n)
+  | .fixed _, .raw b => some b
+  | .pkh, .addr p h => writePkh p h
+  | .addr, .addr p h => writeAddr p h
+  | .pubkey, .pubkey p k => writePubkey p k
+  | .bytes4, .raw b => forgeArray 4 b
+  | .dynFixed _, .raw b => forgeArray 4 b
+  | .dynMax _, .raw b => forgeArray 4 b
+  | .mich4, .mich e => (Impl.Forge.forge e).bind (forgeArray 4)
+  | .entrypoint, .ep n => writeEntrypoint n
+  | .list4, .list xs => (Impl.OpForge.forgeItems xs).bind (forgeArray 4)
+  | _, _ => none
+
+def writeFields : List (String × SCodec) → List Val → Option Bytes
+  | [], [] => some []
+  | (_, c) :: fs, v :: vs => do
+    let a ← writeC c v
+    let b ← writeFields fs vs
+    pure (a ++ b)
+  | _, _ => none
+
+def writeF : SField → FVal → Option Bytes
+  | .req _ c, .req v => writeC c v
+  | .opt _ _ _, .opt none => some [0]
+  | .opt _ cond fs, .opt (some vs) =>
+    -- `Transaction`: parameters are `None` when the entrypoint is default and the value is Unit
+    if cond == .elideDefaultUnit && Impl.OpForge.elided vs then some [0]
+    else (writeFields fs vs).map (255 :: ·)
+  | _, _ => none
+
+def writeL : List SField → Record → Option Bytes
+  | [], [] => some []
+  | f :: fs, v :: vs => do
+    let a ← writeF f v
+    let b ← writeL fs vs
+    pure (a ++ b)
+  | _, _ => none
+
+def writeContent (c : Content) : Option Bytes :=
+  match rowOfKind c.kind with
+  | none => none
+  | some row => (writeL row.layout c.fields).map (row.tag :: ·)
+
+def writeContents : List Content → Option Bytes
+  | [] => some []
+  | c :: cs => do
+    let a ← writeContent c
+    let b ← writeContents cs
+    pure (a ++ b)
+
+/-- canonical bytes of an unsigned operation: branch, then the contents -/
+def writeGroup (g : Group) : Option Bytes := (writeContents g.contents).map (g.branch ++ ·)
+
+end Spec.Op
